@@ -30,7 +30,7 @@ def make_cases(tier, seed):
 def run(ctx):
     _deep_stack()
     return memlib.run_family(
-        ctx, PID, make_cases,
+        ctx, PID, make_cases, wire_every=2,
         rule="directed cases for every defect listed in design.d/C11.md + seeded random programs (1-30 commands) of the 14 set "
              "commands over 3-6 keys holding sets / a string / a list / nothing / a set whose deadline passes during the program; "
              "members include the empty string, CR, LF, CRLF, NUL, 0xff and RESP look-alikes; operand lists of length 1-5, "
